@@ -12,6 +12,7 @@ import (
 	"fmt"
 	"os"
 	"sort"
+	"strings"
 
 	"github.com/LiskHQ/lisk-engine/pkg/db"
 	"github.com/LiskHQ/lisk-engine/pkg/db/diffdb"
@@ -49,18 +50,20 @@ type OpsCase struct {
 	Ops    []*Op   `json:"ops"`
 	Commit *Commit `json:"commit"`
 	Panic  string  `json:"panic,omitempty"`
+	Close  string  `json:"close,omitempty"` // error class of DB.Close (leaked iterators)
 }
 
 type ScanCase struct {
-	K    string `json:"k"`
-	DB   []KV   `json:"db"`
-	Kind int    `json:"kind"` // 0 IterateRange, 1 Iterate, 2 IterateKey
-	Src  string `json:"src"`  // db | reader
-	A    string `json:"a"`
-	B    string `json:"b"`
-	L    int    `json:"l"`
-	R    bool   `json:"r"`
-	Res  []KV   `json:"res"`
+	K     string `json:"k"`
+	DB    []KV   `json:"db"`
+	Kind  int    `json:"kind"` // 0 IterateRange, 1 Iterate, 2 IterateKey
+	Src   string `json:"src"`  // db | reader
+	A     string `json:"a"`
+	B     string `json:"b"`
+	L     int    `json:"l"`
+	R     bool   `json:"r"`
+	Res   []KV   `json:"res"`
+	Close string `json:"close,omitempty"`
 }
 
 var alphabet = []byte{0x00, 0x61, 0xff}
@@ -195,7 +198,12 @@ func runOps(c *OpsCase) {
 	if err != nil {
 		panic(err)
 	}
-	defer d.Close()
+	c.Close = ""
+	defer func() {
+		if err := d.Close(); err != nil {
+			c.Close = closeClass(err)
+		}
+	}()
 	fill(d, c.DB)
 	root := diffdb.New(d, unhex(c.Root))
 	views := []*diffdb.Database{root}
@@ -289,12 +297,24 @@ func runOps(c *OpsCase) {
 	}()
 }
 
+func closeClass(err error) string {
+	if strings.Contains(err.Error(), "leaked iterators") {
+		return "leaked-iterators"
+	}
+	return "other"
+}
+
 func runScan(c *ScanCase) {
 	d, err := db.NewInMemoryDB()
 	if err != nil {
 		panic(err)
 	}
-	defer d.Close()
+	c.Close = ""
+	defer func() {
+		if err := d.Close(); err != nil {
+			c.Close = closeClass(err)
+		}
+	}()
 	fill(d, c.DB)
 	type scanner interface {
 		IterateKey(prefix []byte, limit int, reverse bool) [][]byte
